@@ -19,7 +19,8 @@ from __future__ import annotations
 import random
 
 from .. import gen as G
-from ..facts import BREAKER_EVENTS, TERMINAL_EVENTS, V, analyze, delivered_stop_reason, entry_name, pre_aborted, rejected
+from ..facts import (BREAKER_EVENTS, TERMINAL_EVENTS, V, analyze, delivered_stop_reason, entry_name, final_failure_candidates,
+                     pre_aborted, rejected)
 from . import common
 
 ID = "C14"
@@ -188,14 +189,18 @@ def oracle(scn, trace):
                 if extra:
                     out.append(V("R3", "abort event carries failure tags", {"call": cid, "tags": raw, "entry": ent}))
             else:
-                rec = [i for i in infos if i.recorded]
-                fin = rec[-1] if rec else None
-                if fin is not None:
+                def tag_problem(fin):
+                    if fin is None:
+                        return None   # nothing to compare (no recorded failure); abort events are handled above
                     a = fin.a
                     want_err = "SimError" if a.cause == "exception" else None
-                    if raw.get("class") != a.fclass or raw.get("cause") != a.cause or raw.get("err") != want_err:
-                        out.append(V("R3", "terminal tags do not describe the final failure",
-                                     {"call": cid, "tags": raw, "class": a.fclass, "cause": a.cause, "err": want_err, "entry": ent}))
+                    if (a.fclass is not None and raw.get("class") != a.fclass) or raw.get("cause") != a.cause or raw.get("err") != want_err:
+                        return {"class": a.fclass, "cause": a.cause, "err": want_err}
+                    return None
+
+                probs = [tag_problem(c) for c in final_failure_candidates(infos)]
+                if all(p is not None for p in probs):
+                    out.append(V("R3", "terminal tags do not describe the final failure", {"call": cid, "tags": raw, "expected": probs[0], "entry": ent}))
     return out
 
 
